@@ -8,4 +8,4 @@ import (
 	"github.com/welllog/golib/zzshim/ctl"
 )
 
-func Gosched() { defer ctl.Turn()(); runtime.Gosched() }
+func Gosched() { defer ctl.TurnK(2)(); runtime.Gosched() }
